@@ -62,7 +62,7 @@ type aiStmt struct {
 	q          string
 }
 
-func runAIRace(ctx context.Context, w *World, a *AIRace, res *core.Result) {
+func runAIRace(ctx context.Context, w *World, a *AIRace, lockMode int, res *core.Result) {
 	ch := core.NewChooser(a.Seed, a.Sched)
 	s := core.NewSched(ch)
 	s.PCTDepth, s.PCTSteps = a.PCT, 60
@@ -164,6 +164,26 @@ func runAIRace(ctx context.Context, w *World, a *AIRace, res *core.Result) {
 	res.FaultN("context-switch", s.Switches)
 	res.ProbeN("yields_inside_sequence_tracker", inner)
 	// oracle
+	// The violation key names the circumstances of the recorded finding (known_findings.txt, C28): with
+	// @@innodb_autoinc_lock_mode 0 or 1 the tracker's Next takes no lock of its own and relies on the
+	// statement-long lock the engine takes - which it takes only for statements that have a row to
+	// generate a value for; an INSERT with explicit ids only runs Next unlocked beside the others.
+	raceKey := "table=ai0;mode=race;lock-mode=interleaved"
+	if lockMode != 2 {
+		overlapped := "no"
+		for _, e := range stmts {
+			if len(e.explicit) == 0 || len(e.generated) > 0 {
+				continue
+			}
+			for _, g := range stmts {
+				if len(g.generated) > 0 && e.begin < g.end && g.begin < e.end {
+					overlapped = "yes"
+				}
+			}
+		}
+		raceKey = "table=ai0;mode=race;lock-mode=statement-lock;explicit-only-statement-overlapped=" + overlapped
+		res.Probe("race_with_statement_lock_mode")
+	}
 	owner := map[int]*aiStmt{}
 	ngen := 0
 	for _, st := range stmts {
@@ -171,7 +191,7 @@ func runAIRace(ctx context.Context, w *World, a *AIRace, res *core.Result) {
 			res.Evaluations++
 			ngen++
 			if o, dup := owner[g]; dup {
-				res.Violate("auto-increment-value-handed-out-twice", "table=ai0;mode=race", st.begin, "task %d on branch %s got id %d (%s), which task %d on branch %s had been given too (%s)", st.task, st.branch, g, st.q, o.task, o.branch, o.q)
+				res.Violate("auto-increment-value-handed-out-twice", raceKey, st.begin, "task %d on branch %s got id %d (%s), which task %d on branch %s had been given too (%s)", st.task, st.branch, g, st.q, o.task, o.branch, o.q)
 			}
 			owner[g] = st
 			for _, o := range stmts {
@@ -180,12 +200,12 @@ func runAIRace(ctx context.Context, w *World, a *AIRace, res *core.Result) {
 				}
 				for _, og := range o.generated {
 					if g <= og {
-						res.Violate("generated-value-not-increasing", "table=ai0;mode=race", st.begin, "task %d got id %d (%s) although %d had been generated by a statement that had finished before (%s)", st.task, g, st.q, og, o.q)
+						res.Violate("generated-value-not-increasing", raceKey, st.begin, "task %d got id %d (%s) although %d had been generated by a statement that had finished before (%s)", st.task, g, st.q, og, o.q)
 					}
 				}
 				for _, oe := range o.explicit {
 					if g <= oe {
-						res.Violate("sequence-not-moved-past-explicit-value", "table=ai0;mode=race", st.begin, "task %d on branch %s got id %d (%s) although the explicit value %d had been inserted on branch %s by a statement that had finished before", st.task, st.branch, g, st.q, oe, o.branch)
+						res.Violate("sequence-not-moved-past-explicit-value", raceKey, st.begin, "task %d on branch %s got id %d (%s) although the explicit value %d had been inserted on branch %s by a statement that had finished before", st.task, st.branch, g, st.q, oe, o.branch)
 					}
 				}
 			}
